@@ -160,19 +160,29 @@ def m_public_list(case, clause, detail, finding):
             for l in detail.get("changed_lines", ["x"]))
 
 
-def m_private_modvar(case, clause, detail, finding):
+def m_modvar_moved(case, clause, detail, finding):
     '''declarations of a module change their relative position in the next
-    pass; the displaced run contains a private, non-constant module variable'''
+    pass; one of the displaced declarations is a non-constant module variable
+    that the value of a constant of the same module refers to (kind(r_val))'''
+    import re
     if clause != "SameOrder" or detail.get("src_pass"):
         return False
     mv = _moved(detail)
     if not mv or not all(it["k"] == "decl" and "/" not in it["s"] for it in mv):
         return False
-    return any(", private ::" in it["x"] and "parameter" not in it["x"] for it in mv)
+    w1 = case.get("w1") or ""
+    for it in mv:
+        if "parameter" in it["x"].split("::")[0]:
+            continue
+        pat = re.compile(r"^[^!]*\bparameter\b[^!]*::[^!]*=.*\b" + re.escape(it["t"]) + r"\b",
+                         re.I | re.M)
+        if pat.search(w1):
+            return True
+    return False
 
 
 MATCHERS = {"public-list-reordered": m_public_list,
-            "private-module-variable-moved": m_private_modvar}
+            "module-variable-moved": m_modvar_moved}
 
 
 # ------------------------------------------------------------------- driver
